@@ -69,6 +69,7 @@ MUTS = collections.OrderedDict([
                                  "C10/")),
     # the coordinator's seeded changes (seeded/C10-1, C10-2, C11-2: applied with `git apply`)
     ("seeded_C09_3_zero_preagreed_size_read_as_unset", (SNAP, "seeded/C09-3/patch.diff", "C09/delta-wire")),
+    ("seeded_C10_3_stale_uuid_map_in_reused_target", (SNAP, "seeded/C10-3/patch.diff", "target-reuse-differs")),
     ("seeded_C10_1_recycle_numbers_after_greatest_uuid", (SNAP, "seeded/C10-1/patch.diff", "C10/recycle-then-add-fails")),
     ("seeded_C10_2_reader_rejects_1024_items", (SNAP, "seeded/C10-2/patch.diff", "C10/roundtrip-rejected")),
     ("seeded_C11_2_reserve_announced_size", (SNAP, "seeded/C11-2/patch.diff", "C11/allocation-exceeds-input-multiple")),
